@@ -84,6 +84,8 @@ type Ctx struct {
 
 	mods map[*ssa.Function]map[string]bool
 
+	roTabs *roTables
+
 	obs      []Ob
 	analysed map[string]bool
 	notes    []string
